@@ -21,7 +21,7 @@ from pgpy.packet.fields import String2Key
 
 import specs.indep as indep
 from bounded.common import match_known
-from bounded.encryption import keys, msg_facts, w_pkt, indep_open, pw_octets
+from bounded.encryption import keys, msg_facts, w_pkt, indep_open, pw_octets, cfb_encrypt
 
 NAME = 'C04/tamper-or-wrong-secret-never-yields-other-plaintext'
 
@@ -199,6 +199,19 @@ def mutations(M, tier, rnd):
     for label, body in (('whole ciphertext', ct), ('ciphertext without MDC', ct[:-22])):
         yield ('downgrade to tag 9 with the %s' % label, esk + w_pkt(9, body))
         yield ('downgrade to old-format tag 9 with the %s' % label, esk + w_pkt(9, body, 'old'))
+    # 7b. the same downgrade made parseable.  In the tag 9 format the CFB state is resynchronised after the prefix, so the attacker inserts
+    # one block Y and a copy of cipher block 0; the plaintext then reads G1 || G2 || original packets, with G1 = Y xor E(ct[2:bs+2]).
+    # Choosing the first two octets of G1 as "CA <2*bs>" turns the garbage into a Marker packet that PGPy skips.  The two unknown
+    # keystream octets cost an attacker at most 65536 accept/reject observations; the harness derives them from the session key.
+    algid = int(getattr(SymmetricKeyAlgorithm, M['cipher']))
+    k1 = cfb_encrypt(algid, M['sk'], b'\x00' * bs, iv=ct[2:bs + 2])
+    y = bytes([0xca ^ k1[0], (2 * bs) ^ k1[1]]) + rnd.randbytes(bs - 2)
+    n = len(ct) - 22
+    realigned = ct[:bs + 2] + y + ct[:n]
+    yield ('downgrade to tag 9, realigned behind a forged Marker packet, MDC packet cut off', esk + w_pkt(9, realigned))
+    tampered = bytearray(realigned)
+    tampered[-1] ^= 0x01
+    yield ('downgrade to tag 9, realigned behind a forged Marker packet, MDC packet cut off, last plaintext bit flipped', esk + w_pkt(9, bytes(tampered)))
     for v in (0, 2, 3, 4, 255):
         yield ('SEIPD version octet %d' % v, rebuild(M, bytes([v]) + ct))
     # 8. number and order of the packets
@@ -245,12 +258,14 @@ def attempt(M, blob, ops):
         try:
             got = msg_facts(dec)
         except Exception as ex:
-            got = 'not a literal message: %s' % type(ex).__name__
+            got = 'no readable content (%s)' % type(ex).__name__
         if got == M['want'] and not dec.is_encrypted:
             out.append((label, 'same', ''))
+        elif dec is msg:
+            # decrypt handed back its own argument: the blob did not parse to an encrypted message and no error was raised
+            out.append((label, 'RETURNED-INPUT', ('clear-text content of the blob returned as if decrypted: ' if isinstance(got, dict) else '') + repr(got)[:200]))
         else:
             out.append((label, 'DIFFERENT', repr(got)[:200]))
-        # the object must stay usable: a later honest decrypt of the pristine blob is checked by the caller
     return out
 
 
@@ -262,7 +277,7 @@ def work(arg):
     try:
         for label, blob in chunk:
             for opener, outcome, detail in attempt(M, blob, ops):
-                res.append((mi, label, opener, outcome, detail, blob.hex() if outcome == 'DIFFERENT' else None))
+                res.append((mi, label, opener, outcome, detail, blob.hex() if outcome in ('DIFFERENT', 'RETURNED-INPUT') else None))
     except Exception as ex:
         tb = traceback.extract_tb(ex.__traceback__)[-1]
         res.append((mi, 'harness', 'harness', 'ERROR', '%s: %s at %s:%d' % (type(ex).__name__, ex, tb.filename.split('/')[-1], tb.lineno), None))
@@ -340,7 +355,7 @@ def component(tier='quick', seed=0, known=()):
         String2Key.derive_key = _REAL_DERIVE
         _MEMO.clear()
     results.sort(key=lambda r: (r[0], r[1], r[2]))
-    violations, known_hits = [], []
+    violations, known_hits, by_sig = [], [], {}
     outcomes = collections.Counter()
     exc = collections.Counter()
     secret_exc = collections.Counter()
@@ -354,6 +369,8 @@ def component(tier='quick', seed=0, known=()):
         bad = None
         if outcome == 'DIFFERENT':
             bad = 'mutated message decrypts to something else (%s): %s' % (label, detail)
+        elif outcome == 'RETURNED-INPUT':
+            bad = 'decrypt of a mutated blob (%s) neither raised nor decrypted, it returned its argument: %s' % (label, detail)
         elif outcome == 'ACCEPTED':
             bad = '%s did not raise: %s' % (label, detail)
         elif outcome == 'ERROR':
@@ -362,14 +379,19 @@ def component(tier='quick', seed=0, known=()):
             bad = 'untouched message does not decrypt to the original with %s: %s %s' % (opener, outcome, detail)
         if bad:
             total_bad += 1
-            case = {'message': MSGS[mi]['name'], 'mutation': label, 'opener': opener, 'outcome': outcome, 'blob_hex': blob,
-                    'original_hex': MSGS[mi]['raw'].hex(), 'passphrase': PW}
+            kind = label.split(' ')[0] if label.split(' ')[0] in ('flip', 'truncate') else label
+            sig = (outcome, opener.split(':')[0], kind, detail.split(':')[0][:40])
+            case = {'message': MSGS[mi]['name'], 'mutation': label, 'opener': opener, 'outcome': outcome, 'forged_content': 'clear-text' in detail,
+                    'blob_hex': blob, 'original_hex': MSGS[mi]['raw'].hex(), 'passphrase': PW, 'same_class_count': 1}
             k = match_known(case, known)
             if k is not None:
                 if k not in known_hits:
                     known_hits.append(k)
-            elif len(violations) < 5:
-                violations.append({'case': case, 'what': bad})
+            elif sig in by_sig:
+                by_sig[sig]['case']['same_class_count'] += 1
+            else:
+                by_sig[sig] = {'case': case, 'what': bad}
+                violations.append(by_sig[sig])
     nsecret = sum(1 for r in results if r[2] == 'secret')
     ncontrol = sum(1 for r in results if r[1].startswith('control'))
     nblobs = sum(nmut.values())
@@ -390,7 +412,7 @@ def component(tier='quick', seed=0, known=()):
             'outcomes': dict(outcomes),
             'exceptions_on_mutation': dict(exc.most_common()),
             'exceptions_on_wrong_secret': dict(secret_exc.most_common()),
-            'violations': violations,
+            'violations': violations[:6],
             'violations_total': total_bad,
             'known_hits': known_hits}
 
